@@ -552,7 +552,7 @@ def noise_text(c, n):
     return L
 
 
-def model_case(c, xs, dump=True):
+def model_case(c, xs, dump=True, foreign=None):
     """xs: the values of the variables at every step (list of lists of component lists)"""
     p = ["META", str(len(c["vars"]))]
     for v in c["vars"]:
@@ -570,9 +570,14 @@ def model_case(c, xs, dump=True):
     st = steps_of(c)
     tsf = c.get("tsf", 1)
     asleep = sum(1 for t in st if t[0] % tsf != 0)
-    p.append(str(len(c["events"]) - asleep))
+    p.append(str(len(c["events"]) - asleep + (1 if foreign else 0)))
     n = 0
     for e in c["events"]:
+        if foreign and e[0] == "step" and n == foreign[0]:
+            # hills received from the other walkers at this step: it, weight, centres, widths
+            p += ["F", str(len(foreign[1]))]
+            for h in foreign[1]:
+                p += [str(h[0]), V.hexf(h[1])] + [V.hexf(t) for cv in h[2] for t in cv] + [V.hexf(t) for t in h[3]]
         if e[0] == "save":
             p.append("W")
             continue
@@ -1534,7 +1539,8 @@ def fixed_replica_case():
     return A, [B]
 
 
-def replica_cases(run, exe, r, d, ncases):
+def replica_cases(run, exe, r, d, ncases, model=None):
+    ties = []
     for k in ["w"] + list(range(ncases)):
         A, others = fixed_replica_case() if k == "w" else gen_replica_case(r, k)
         for fn in os.listdir(d):
@@ -1575,6 +1581,28 @@ def replica_cases(run, exe, r, d, ncases):
         run.dist("replica_steps_with_foreign_hills", nrec)
         if bad:
             run.violation(bad[0], bad[1], dict(rp, step=bad[2]))
+        elif model and not A["wt"]:
+            # tie with the model: own state + one mirror object holding the hills received (C05_replicas_energy/_force);
+            # well-tempered walkers are left to the oracle (the model's own heights do not see the mirrors)
+            stA = steps_of(A)
+            first = [n for n, t in enumerate(stA) if t[0] % A["ruf"] == 0]
+            if first:
+                ties.append((A, outs[-1][4], model_case(A, [s_["cv"] for s_ in outs[-1][4]], False, (first[0], fh_)), rp))
+    if ties:
+        rc, mout, e = V.run_lines(model, [t[2] for t in ties], timeout=600)
+        for k, (A, impl, mline, rp) in enumerate(ties):
+            try:
+                mo = parse_model(A, mout[k]) if k < len(mout) else None
+            except (ValueError, IndexError, KeyError):
+                mo = None
+            run.dist("replica_model_ties")
+            if mo is None or len(mo) != len(impl):
+                run.mismatch("replicas-model-output", dict(rp, model_case=mline), len(impl), None if mo is None else len(mo))
+                continue
+            for n, (im, ms) in enumerate(zip(impl, mo)):
+                if not close(im["E"], ms["E"]) or not force_close(im["F"], ms["F"]):
+                    run.mismatch("replicas-energy", dict(rp, model_case=mline, step=n), {"E": im["E"], "F": im["F"]}, {"E": ms["E"], "F": ms["F"]})
+                    break
 
 
 def keep_witness(run, exe, d):
@@ -1673,7 +1701,7 @@ def check(run):
             run.sample({"scenario": txt.split("\n")[:45], "last_step": {k: impl[-1].get(k) for k in ("it", "E", "F", "nhills", "nnew", "noff", "geom")}})
     reload_witness(run, exe, d)
     keep_witness(run, exe, d)
-    replica_cases(run, exe, r, d, 8 if quick else 200)
+    replica_cases(run, exe, r, d, 8 if quick else 200, model)
     run.cov["correspondence"].update({"scenarios": len(cs)})
 
 
